@@ -110,7 +110,7 @@ func renderClosed(c ClosedCase) string {
 		case "rx2":
 			fmt.Fprintf(&b, "w%d = \"W\"\nw%d, k%d = <-c\nobs += [w%d, k%d]\n", i, i, i, i, i)
 		case "forin":
-			b.WriteString("for q in c {\n\tobs += [q]\n}\nobs += [\"E\"]\n")
+			b.WriteString("for q in c {\n\ttick()\n\tobs += [q]\n}\nobs += [\"E\"]\n")
 		}
 	}
 	b.WriteString("obs\n")
@@ -220,11 +220,13 @@ func oracleClosed(c ClosedCase, o *h.Obs) *h.Fail {
 			o.Class("closed_op_" + l)
 		}
 	}
-	r := runOnce(src, runDeadline)
+	r := runOnce(src, runDeadline, 64)
 	t := c.Ch.Type
 	switch {
 	case r.hostPanic != "":
 		return h.Failf("C16|host-panic|closed|"+r.hostPanicNorm, "a Go panic escaped into the host\nsource:\n%s\npanic: %s", src, r.hostPanic)
+	case r.runaway:
+		return h.Failf("C16|runaway-loop|closed", "for-in over the closed channel ran more iterations than items were buffered\nsource:\n%s", src)
 	case r.stuck != "":
 		return h.Failf("C16|stuck|closed", "a straight-line program whose operations never block in the model did not finish (%s)\nsource:\n%s", r.stuck, src)
 	case r.err != "":
